@@ -35,7 +35,7 @@ RULE = (
 )
 ASSUMPTIONS = ["the two data files emptied by the environment (SimSun_bad_len9, av_231_and_mesh_bad_len9) must be reported invalid and are otherwise skipped",
                "quick checks shipped data up to length 6, thorough every length"]
-REQUIRED = ["calls.write_bisc_files", "calls.read_bisc_file", "calls.PinWords.store_dfa_for_perm", "calls.PinWords.load_dfa_for_perm",
+REQUIRED = ["env.shards_with_other_hashseed", "calls.write_bisc_files", "calls.read_bisc_file", "calls.PinWords.store_dfa_for_perm", "calls.PinWords.load_dfa_for_perm",
             "history.overwrites", "history.malformed_reads", "history.reads_decided", "dfa.loads_decided", "shipped.blocks_verified",
             "shipped.files", "audit.open_events", "emptied_files.reported_invalid", "faults.injected", "dfa.threaded_rounds", "aliasing.read_results_mutated", "history.convention_change_sequences", "history.shipped_names_missing"]
 MIN_NONTRIVIAL = 60
@@ -434,6 +434,7 @@ def plan(tier, seed):
         specs.append({"name": f"shipped-{name}-{N}", "kind": "shipped", "set": name, "N": N, "maxlen": 6 if tier == "quick" else N})
     nh, nd = (200, 96) if tier == "quick" else (2000, 600)
     specs += [{"name": f"hist-{i}", "kind": "hist", "files": nh // 8, "dfa": nd // 8} for i in range(8)]
+    specs.append({"name": "hist-hashseed", "kind": "hist", "files": nh // 8, "dfa": nd // 8, "env": {"PYTHONHASHSEED": str(555 + seed)}})
     return specs
 
 
